@@ -287,6 +287,29 @@ def _boundary_years(ctx):
     return it
 
 
+def _spelled_grid(ctx):
+    """Every spelled-out day word (1-31, bare and with the ordinal suffix, digits too) next to every listed spelling of every
+    month, in two years (one of them a leap year): a day word and the month name that follows it meet in the rewriting to Latin,
+    so every (day word, month spelling) pair is its own case."""
+    def it(shard, nshards):
+        i = 0
+        for y in (1399, 1394):
+            for m in range(1, 13):
+                ml = j_month_length(y, m)
+                for mi in range(len(J_MONTHS[m - 1])):
+                    for d in range(1, ml + 1):
+                        for spelled in (1, 2, 0):
+                            i += 1
+                            if i % nshards != shard:
+                                continue
+                            h = derive_seed(ctx.seed, "sg", y, m, d, mi, spelled)
+                            sp = {"kind": "named", "pdigits": h % 2 if not spelled else 0, "mname": mi, "spelled": spelled,
+                                  "weekday": (h >> 4) % 4 == 0, "timeform": (h >> 8) % 2}
+                            hm = None if (h >> 12) % 4 else [(h >> 16) % 24, (h >> 24) % 60]
+                            yield {"cal": "jalali", "ymd": [y, m, d], "sp": sp, "hm": hm, "pair": False}
+    return it
+
+
 @st.composite
 def sampled(draw):
     if draw(st.booleans()):
@@ -306,4 +329,5 @@ def sampled(draw):
 def stages(ctx):
     return [Stage("calendar_walk", "enum", cases=_walk(ctx), exhaustive=not ctx.quick),
             Stage("boundary_years", "enum", cases=_boundary_years(ctx), exhaustive=True),
+            Stage("spelled_grid", "enum", cases=_spelled_grid(ctx), exhaustive=True),
             Stage("sampled", "hyp", strategy=sampled(), examples=ctx.n(1200, 40000))]
